@@ -81,6 +81,10 @@ def sky2pixY (w2p_0 _w2p_1 : α) : α := w2p_0
 /-- the `origin` argument of `all_world2pix` in sky2pix -/
 def sky2pixOrigin : α := R.ofNat 1
 
+/-- 1 = every pixel<->world call of the method goes through astropy's `all_*` entry point (the header's full WCS) -/
+def pix2skyEntryAll : α := R.ofNat 1
+def sky2pixEntryAll : α := R.ofNat 1
+
 def p2sVecOffX (pixel_0 _pixel_1 r theta : α) : α := offX pixel_0 r theta
 def p2sVecOffY (_pixel_0 pixel_1 r theta : α) : α := offY pixel_1 r theta
 def p2sEllOff1X (pixel_0 _pixel_1 sx _sy theta : α) : α := offX pixel_0 sx theta
